@@ -129,7 +129,7 @@ pub fn generate(tier: &str, r: &mut Rng, emit: &mut dyn FnMut(Case)) {
         };
         let mut args: Args = vec![g(k), gs(&params), g(nin)];
         for nd in &nodes { c09::encode(nd, &mut args) }
-        let mut tenc = Vec::new(); enc_head(&ty, &mut tenc);
+        let mut tenc = String::new(); enc_head(&ty, &mut tenc);
         emit(Case::new("c01.kernel", args, &["c01.valid.post1"], format!("k{k} t{}", tenc)));
     }
 }
